@@ -286,7 +286,7 @@ func ruleF3b(c *Ctx) *RuleResult {
 		if b, ok := call.Call.Value.(*ssa.Builtin); ok && b.Name() == "delete" {
 			key := call.Call.Args[1]
 			// the key of a range over the same map, under HasPrefix(key, "_HLS_")
-			conds := ifsOn(fn, func(v ssa.Value) bool {
+			conds := ifsOnV(fn, func(v ssa.Value) bool {
 				hc, ok := v.(*ssa.Call)
 				if !ok || !isFuncNamed(hc.Call.StaticCallee(), "strings", "HasPrefix") {
 					return false
@@ -897,7 +897,7 @@ func ruleG17(c *Ctx) *RuleResult {
 		if f == nil || !isRecvValue(fn, base) || !f.Exported() {
 			return
 		}
-		conds := ifsOn(fn, func(v ssa.Value) bool {
+		conds := ifsOnV(fn, func(v ssa.Value) bool {
 			bo, ok := v.(*ssa.BinOp)
 			if !ok || bo.Op != token.EQL {
 				return false
@@ -1156,7 +1156,7 @@ func ruleP3d(c *Ctx) *RuleResult {
 				return false
 			}
 			g := call.Call.StaticCallee()
-			if g == nil || (g.Name() != "registerPath" && g.Name() != "unregisterPath") || len(call.Call.Args) < 2 {
+			if g == nil || (g != c.pathTableFn("register") && g != c.pathTableFn("unregister")) || len(call.Call.Args) < 2 {
 				return false
 			}
 			f, _ := loadedField(call.Call.Args[1])
@@ -1258,17 +1258,40 @@ func ruleT5b(c *Ctx) *RuleResult {
 		if !InRootPkg(fn) {
 			continue
 		}
-		allInstrs(fn, func(in ssa.Instruction) {
-			st, ok := in.(*ssa.Store)
+		// a construction helper that stores one of its parameters into the field stands for the store
+		attachVia := func(x ssa.Instruction) (ssa.Value, bool) {
+			call, ok := x.(*ssa.Call)
 			if !ok {
+				return nil, false
+			}
+			g := call.Call.StaticCallee()
+			if g == nil || g.Blocks == nil || !InRootPkg(g) {
+				return nil, false
+			}
+			for _, s2 := range storesToField(c, g, rendF) {
+				for j, p := range g.Params {
+					if s2.Val == ssa.Value(p) && j < len(call.Call.Args) {
+						return call.Call.Args[j], true
+					}
+				}
+			}
+			return nil, false
+		}
+		allInstrs(fn, func(in ssa.Instruction) {
+			var stored ssa.Value
+			if st, ok := in.(*ssa.Store); ok {
+				if f, _ := fieldOfAddr(st.Addr); f == rendF {
+					stored = st.Val
+				}
+			} else if v, ok := attachVia(in); ok {
+				stored = v
+			}
+			if stored == nil {
 				return
 			}
-			f, _ := fieldOfAddr(st.Addr)
-			if f != rendF {
-				return
-			}
+			st := in
 			// the stored value: an element of a ranged-over slice
-			ld, ok := st.Val.(*ssa.UnOp)
+			ld, ok := stored.(*ssa.UnOp)
 			if !ok || ld.Op != token.MUL {
 				return
 			}
@@ -1295,6 +1318,9 @@ func ruleT5b(c *Ctx) *RuleResult {
 				return
 			}
 			isAttach := func(x ssa.Instruction) bool {
+				if _, via := attachVia(x); via {
+					return true
+				}
 				s2, ok := x.(*ssa.Store)
 				if !ok {
 					return false
@@ -1412,11 +1438,11 @@ func partPresenceConds(c *Ctx, fn *ssa.Function) (present []condIf, absent []con
 			if s, isS := constString(pair[1]); isS && s == "" && isPartVal(pair[0]) {
 				// EQL: true edge = absent
 				if bo.Op == token.EQL {
-					absent = append(absent, condIf{iff, true})
-					present = append(present, condIf{iff, false})
+					absent = append(absent, condIf{If: iff, Pol: true})
+					present = append(present, condIf{If: iff, Pol: false})
 				} else {
-					present = append(present, condIf{iff, true})
-					absent = append(absent, condIf{iff, false})
+					present = append(present, condIf{If: iff, Pol: true})
+					absent = append(absent, condIf{If: iff, Pol: false})
 				}
 			}
 		}
@@ -2005,7 +2031,7 @@ func (c *Ctx) compositeLiterals(typeName string) []complit {
 }
 
 func ruleF33(c *Ctx) *RuleResult {
-	r := &RuleResult{Floor: 8, FloorWhat: "composite literals of muxer object types"}
+	r := &RuleResult{Floor: 4, FloorWhat: "composite literals of muxer object types"}
 	n := 0
 	// a field of the literal whose name is also a field of muxerStream / Muxer mirrors that field
 	for _, tn := range []string{"muxerPart", "muxerSegmentFMP4", "muxerSegmentMPEGTS", "muxerStream"} {
